@@ -190,6 +190,11 @@ def sign(v, cell):
             return "neg"
     if d > 0 and a + d >= 1 and b >= -(a + d):
         return "pos"
+    if d > 0 and a + d == 0 and b > 0:
+        # (q - 1) * d * P + b * r with q >= 1 and r > 0: at least b * r
+        return "pos"
+    if d < 0 and a + d == 0 and b < 0:
+        return "neg"
     raise Unknown("sign of %r" % v)
 
 
